@@ -428,5 +428,31 @@ def linear_scans_in_loops(ctx, report):
                             not isinstance(n.func.value, ast.Constant):
                         report.add('C19.R6', '%s@scan[%s]' % (f.construct, ast.unparse(n.func)),
                                    '%s inside a loop compares against every earlier element: quadratic work in the number of parsed items' % ast.unparse(n)[:60])
+    # iterating, inside a loop, over the list that very loop appends to: every pass walks everything collected so far
+    for f in model.functions():
+        if f.module.external or not f.name.lstrip('_').startswith('parse'):
+            continue
+        for lp in ast.walk(f.node):
+            if not isinstance(lp, (ast.For, ast.While)):
+                continue
+            grown = {n.func.value.id for st in lp.body for n in ast.walk(st)
+                     if isinstance(n, ast.Call) and isinstance(n.func, ast.Attribute) and n.func.attr in ('append', 'extend', 'insert') and isinstance(n.func.value, ast.Name)}
+            if not grown:
+                continue
+            for st in lp.body:
+                for n in ast.walk(st):
+                    its = []
+                    if isinstance(n, ast.For):
+                        its.append(n.iter)
+                    elif isinstance(n, (ast.ListComp, ast.SetComp, ast.GeneratorExp, ast.DictComp)):
+                        its.extend(g.iter for g in n.generators)
+                    elif isinstance(n, ast.Call) and isinstance(n.func, ast.Name) and n.func.id in ('set', 'sorted', 'sum', 'any', 'all', 'list', 'tuple', 'max', 'min') and n.args:
+                        its.append(n.args[0])
+                    elif isinstance(n, ast.Compare) and any(isinstance(o, (ast.In, ast.NotIn)) for o in n.ops):
+                        its.extend(n.comparators)
+                    for it in its:
+                        if isinstance(it, ast.Name) and it.id in grown:
+                            report.add('C19.R6', '%s@rescan[%s]' % (f.construct, it.id),
+                                       'every pass of the loop walks the whole list %s that the same loop keeps appending to: quadratic work in the number of parsed items' % it.id)
     report.count('C19.R6', n_loops)
     report.floor('C19.R6', 30, 'loops in parse functions')
